@@ -6,7 +6,7 @@ bit-identical; if the call raised, nothing at all may have changed.
 """
 from __future__ import annotations
 
-from ..engine import obs_diff, obs_equal
+from ..engine import obs_circuit, obs_diff, obs_equal
 from ..ops import targets
 from . import Monitor
 
@@ -18,10 +18,53 @@ class FrameMonitor(Monitor):
     name = "frame"
     needs_snapshot = True
 
+    def response(self, c):
+        """How a throw-away copy of `c` answers a fixed follow-up program (a
+        distinct phase on every mode number it accepts): state that the four
+        observables do not show - which modes are private, what a mode number
+        refers to - shows here."""
+        try:
+            cp = c.copy()
+            for m in range(c.n_modes):
+                try:
+                    cp.ps(m, 0.1 * (m + 1))
+                except Exception:  # noqa: BLE001
+                    break          # beyond the user-visible range
+            return obs_circuit(cp)
+        except Exception as e:  # noqa: BLE001
+            return (0, 0, {}, {}, ("exc", type(e).__name__))
+
+    def pre(self, op, snap):
+        self._resp = {}
+        w = self.w
+        for f in ARG_FIELDS:
+            cid = op.get(f)
+            if cid is not None and not isinstance(cid, (list, dict)) \
+                    and w.has("c", cid) and cid not in self._resp:
+                self._resp[cid] = self.response(w.pool["c"][cid])
+
     def post(self, op, out, before, after):
         raised = out["status"] == "raised"
         allowed = set() if raised else targets(self.w, op)
         vs = []
+        for cid, old in getattr(self, "_resp", {}).items():
+            if ("c", cid) in allowed or not self.w.has("c", cid):
+                continue
+            if ("c", cid) in before and not obs_equal(
+                    before[("c", cid)], after.get(("c", cid), before[("c", cid)])):
+                continue             # reported below with the plain observables
+            new = self.response(self.w.pool["c"][cid])
+            self.w.probe("later_behaviour_checked")
+            if not obs_equal(old, new):
+                sig = {"op": op["op"], "raised": raised, "role": "argument",
+                       "what": "later_behaviour",
+                       "shared": isinstance(cid, str)}
+                if raised:
+                    sig["exc"] = out["exc"]
+                return [self.v(sig, f"('c', {cid!r}) answers a follow-up "
+                               f"operation differently after {op['op']} "
+                               f"(raised={raised}): {obs_diff(old, new)}",
+                               key=["c", cid])]
         for key, old in before.items():
             new = after.get(key)
             if new is None:
